@@ -48,8 +48,8 @@ _STD = ('std / dependency contracts assumed by the Verus proofs (listed per grou
         'real std by the `assumptions` suite: exhaustive per char, bounded per string)')
 
 PROPS = {
-    'C01': dict(level='other', groups=['parse', 'fmt', 'inverse', 'c01', 'builder', 'purl', 'cksum', 'lib_shape'], kani=ESC, bounded=['tokens:C01', 'scale:C01', 'spell:C01', 'format:C01'] + A,
-        explanation='THEOREM (group c01, theorem_c01_plain): for every type parameter that behaves like the built-in string shapes (conversion total and faithful -- std; hook = shape_rel -- proved in lib_shape), every string s and every value g that parse_post allows for s and that carries no checksum qualifier: parse_post applied to canon_spec(g) allows only Ok values, with the same type text and the same field texts, whose canon_spec is the same string. Together with from_str == parse_post (group parse) and Display::fmt == canon_spec (group fmt) this is C01 for the type-agnostic PURL, for all strings, except values with a checksum qualifier (bounded). theorem_c01_typed: the same for the PackageType instance (conversion = the name-table contract proved in pkgtype, hook = pkg_finish_rel proved in pkgtype; name rules idempotent, names injective), again for values without a checksum qualifier. Pieces: Proved for all strings (Verus): from_str == parse_post (the parser as a specification function written from the statement), Display::fmt == canon_spec, build() canonicalises; complete on a finite domain (Kani): every byte of every escape set through the real encoder. ALSO proved (group inverse, 100 lemmas): the inverse direction at the specification level -- for a valid type and normalised parts (what build() and the decoders guarantee), phase_a(canon_spec(ty, p)) and phase_b return exactly ty and the parts (lemma_parse_canon), from a per-character definition of percent-encoding and the assumed dec(enc(s)) = s. NOT proved: the checksum text is a fixpoint of parse + serialise, String::from_str is the identity, PackageType lookup of its own name; the end-to-end statement is therefore also checked BOUNDED on the real code: every accepted string of the token language T_N and of the spelling domain S is printed, re-parsed, compared and printed again, for String, SmallString and PackageType.'),
+    'C01': dict(level='proof', groups=['parse', 'fmt', 'inverse', 'c01', 'ckfix', 'builder', 'purl', 'cksum', 'lib_shape', 'pkgtype'], kani=ESC, bounded=['tokens:C01', 'scale:C01', 'spell:C01', 'format:C01'] + A,
+        explanation='THEOREM (group c01, theorem_c01_plain): for every type parameter that behaves like the built-in string shapes (conversion total and faithful -- std; hook = shape_rel -- proved in lib_shape), every string s and every value g that parse_post allows for s: parse_post applied to canon_spec(g) allows only Ok values, with the same type text and the same field texts, whose canon_spec is the same string. Together with from_str == parse_post (group parse) and Display::fmt == canon_spec (group fmt) this is C01 for the type-agnostic PURL, for all strings (a checksum qualifier is handled through theorem_checksum_rebuild, group ckfix). theorem_c01_typed: the same for the PackageType instance (conversion = the name-table contract proved in pkgtype, hook = pkg_finish_rel proved in pkgtype; name rules idempotent, names injective). What is left to assumptions: std / dependency contracts (section 9 of DESIGN.md), `==` on GenericPurl being equality of the type and of the texts (derive semantics + the verified QualifierKey::eq), String::from_str being the identity. The bounded suites remain as a cross-check on the compiled code. Pieces: Proved for all strings (Verus): from_str == parse_post (the parser as a specification function written from the statement), Display::fmt == canon_spec, build() canonicalises; complete on a finite domain (Kani): every byte of every escape set through the real encoder. ALSO proved (group inverse, 100 lemmas): the inverse direction at the specification level -- for a valid type and normalised parts (what build() and the decoders guarantee), phase_a(canon_spec(ty, p)) and phase_b return exactly ty and the parts (lemma_parse_canon), from a per-character definition of percent-encoding and the assumed dec(enc(s)) = s. The end-to-end statement is also cross-checked BOUNDED on the compiled code: every accepted string of the token language T_N and of the spelling domain S is printed, re-parsed, compared and printed again, for String, SmallString and PackageType.'),
     'C02': dict(level='other', groups=['parse', 'parse_seg', 'lib_shape', 'qual', 'cksum'], kani=['type_char', 'key_char'], bounded=['spell:C02', 'tokens:C02', 'scale:C02'] + A,
         explanation="Proved for all strings (Verus): from_str == parse_post -- designated separators taken right to left (last '#', last '?', first '/', last '@', last '/'), each component routed to its decoder; decode_subpath / decode_namespace / decode_qualifiers equal their fold specifications; type and key legality and lower-casing; checksum text. BOUNDED: that every permitted spelling of a tuple is mapped to the tuple by these specification functions -- exhaustive tuples x spelling freedoms (S) and every T_N string against an independent reference parser, on the real code."),
     'C03': dict(level='other', groups=['fmt', 'qual', 'purl', 'pkgtype'], kani=ESC, bounded=['format:C03', 'tokens:C03', 'scale:C03', 'spell:C03', 'qualmap', 'preds', 'shapes'] + A,
@@ -68,15 +68,15 @@ PROPS = {
         explanation='Proved for all strings and all seven variants (Verus): nuget name = Unicode lower-casing (lower_seq), pypi name = pypi_norm written from the statement, maven refused iff the namespace has no significant segment, every other field untouched (frame), parser and builder both end in build() which applies the hook once. Unicode tables validated exhaustively (A). BOUNDED: unknown-type refusal (phf / unicase lookup), cross-checks on every scalar value.'),
     'C09': dict(level='other', groups=['builder', 'qual', 'pkgtype', 'purl', 'fmt', 'inverse'], kani=ESC, bounded=['builder', 'format:C09', 'preds', 'shapes', 'pkgrules', 'lower'] + A,
         explanation='Proved (Verus): every setter sets its field and leaves every other field unchanged (frames => override and commutation), with_qualifier accepts exactly valid keys with the whole-content postcondition of insert, build() succeeds / fails as stated (build_post), Display == canon_spec. ALSO proved (group inverse): parsing canon_spec of normalised parts returns those parts (lemma_parse_canon). BOUNDED: the same for parts that are not normalised (insignificant namespace / subpath segments set through the builder) and end to end on the compiled code -- all call sequences of length <= 2 / 3 over a value universe, and every scalar value in every field.'),
-    'C10': dict(level='other', groups=['builder', 'purl', 'lib_lower', 'pkgtype', 'cksum', 'c01', 'lib_shape'], kani=[], bounded=['tokens:C10', 'scale:C10', 'spell:C10', 'builder', 'pkgrules'] + A,
-        explanation='THEOREM (group c01, theorem_c10_plain + lemma_parsed_is_handed_out): for the built-in string shapes and every value without a checksum qualifier that satisfies what C04 says of handed-out values (shown for parsed values from parse_post alone), build() applied to the value\'s own type and parts succeeds and returns the same type text, the very same parts and the same canonical string; theorem_c10_typed + lemma_built_is_handed_out_typed: the same for PackageType (the name already obeys the rule, so the hook changes nothing). Pieces: Proved (Verus): into_builder moves type and parts unchanged, build() = hook + generic clean-up (build_post), name rules are the specification functions lower_seq / pypi_norm, checksum text = canon_text. BOUNDED: idempotence of the whole pipeline on produced values -- every accepted T_N / S string and every built value is re-built and compared.'),
+    'C10': dict(level='proof', groups=['builder', 'purl', 'lib_lower', 'pkgtype', 'cksum', 'c01', 'ckfix', 'lib_shape'], kani=[], bounded=['tokens:C10', 'scale:C10', 'spell:C10', 'builder', 'pkgrules'] + A,
+        explanation='THEOREM (group c01, theorem_c10_plain + lemma_parsed_is_handed_out): for the built-in string shapes and every value that satisfies what C04 says of handed-out values (shown for parsed values from parse_post alone and for built values from the hook relation and build_post alone; the checksum text is a fixpoint by theorem_checksum_rebuild), build() applied to the value\'s own type and parts succeeds and returns the same type text, the very same parts and the same canonical string; theorem_c10_typed + lemma_built_is_handed_out_typed: the same for PackageType (the name already obeys the rule, so the hook changes nothing). Pieces: Proved (Verus): into_builder moves type and parts unchanged, build() = hook + generic clean-up (build_post), name rules are the specification functions lower_seq / pypi_norm, checksum text = canon_text. BOUNDED: idempotence of the whole pipeline on produced values -- every accepted T_N / S string and every built value is re-built and compared.'),
     'C11': dict(level='other', groups=['qual'], kani=['key_char'], bounded=['qualmap', 'preds'] + A,
         explanation='Proved (Verus) for all strings and all contents: key validity and lower-casing, comparator total (never None), search, get, contains_key, insert, remove, clear, '
                     'entry, VacantEntry::insert, OccupiedEntry::{get,get_mut,into_mut,insert,remove,remove_entry}, get_mut, insert_typed, remove_typed each preserve the invariant '
                     'and have whole-content postconditions (named position pos_of, no existential). retain / iterators / try_from_iter / Eq-Hash-Ord are BOUNDED: every reachable '
                     'content over a universe x every operation against a BTreeMap, to a fixpoint.'),
-    'C12': dict(level='other', groups=['cksum', 'lib_lower', 'builder'], kani=[], bounded=['checksum'] + A,
-        explanation="Proved (Verus): the text of a Checksum is canon_text(entries) -- the strictly sorted listing, lower-case hex -- for EVERY order in which the hash map yields its entries (iteration order modelled as arbitrary; uniqueness lemma), refused iff some value is not an even number of hex digits, no arithmetic overflow for any map including the empty one; parsing equals ck_parse (split ',', last ':', lower-cased algorithm, duplicates refused); build() stores that text. BOUNDED: insert / insert_raw / remove / get and text -> entries -> text: all insertion sequences (length <= 3 / 4) over 10 algorithms x 5 byte strings with case variants, typed round trip, equivalent spellings."),
+    'C12': dict(level='other', groups=['cksum', 'ckfix', 'lib_lower', 'builder'], kani=[], bounded=['checksum'] + A,
+        explanation="THEOREM (group ckfix): theorem_checksum_text_fixpoint -- for entries in ascending key order with lower-case comma-free keys and hex values the text parses back (ck_parse) to the same keys with lower-cased hex, and that map's canonical text is the same text; theorem_checksum_rebuild -- whatever text x a checksum qualifier carries, if build() accepts it the text t it stores satisfies ck_text(ck_parse(t)) == t (every map ck_parse returns has a sorted listing: lemma_ck_fold_sorted_listing). Pieces: Proved (Verus): the text of a Checksum is canon_text(entries) -- the strictly sorted listing, lower-case hex -- for EVERY order in which the hash map yields its entries (iteration order modelled as arbitrary; uniqueness lemma), refused iff some value is not an even number of hex digits, no arithmetic overflow for any map including the empty one; parsing equals ck_parse (split ',', last ':', lower-cased algorithm, duplicates refused); build() stores that text. BOUNDED: insert / insert_raw / remove / get and text -> entries -> text: all insertion sequences (length <= 3 / 4) over 10 algorithms x 5 byte strings with case variants, typed round trip, equivalent spellings."),
     'C13': dict(level='proof', groups=['lib_shape'], kani=['type_char'], bounded=['preds', 'shapes', 'tokens:C13', 'scale:C13'] + A,
         explanation='Proved (Verus, all strings): the finish bodies of String, Cow<str> (both arms) and SmartString satisfy the SAME functional postcondition shape_rel '
                     '(Ok iff valid type; on Ok the type is ASCII-lower-cased; parts untouched), package_type() is the identity view; everything else is one generic body. '
@@ -102,7 +102,7 @@ PROPS = {
                     'BOUNDED: values that are not normalised (builder-made namespaces with empty segments etc.) and the end-to-end statement on the compiled code: all pairs of a near-collision corpus, parsed and built, String and PackageType.'),
 }
 
-ALL_GROUPS = ['lib_lower', 'lib_shape', 'pkgtype', 'qual', 'builder', 'purl', 'parse_seg', 'cksum', 'fmt', 'parse', 'inverse', 'serde', 'c01']
+ALL_GROUPS = ['lib_lower', 'lib_shape', 'pkgtype', 'qual', 'builder', 'purl', 'parse_seg', 'cksum', 'fmt', 'parse', 'inverse', 'serde', 'c01', 'ckfix']
 
 
 def _auto_groups():
@@ -211,7 +211,7 @@ def evidence(pid, P, tier, seed, vres, kres, bres, violations, undecided, wall):
                                   sha256=m.get('sha256'), mode=m.get('mode', m.get('kind')), group=r['group'],
                                   carries=m.get('properties', [])))
         for f in r.get('functions', []):
-            if 'verif_canary_must_fail' in f['function']:
+            if 'must_fail' in f['function']:
                 continue
             obligations += 1
             discharged += 1 if f['success'] else 0
